@@ -35,6 +35,8 @@ VIOL = {10: "rewards credited in a block (validators' chunks + all delegator rew
         31: "a withdrawal paid more than the matured balance",
         33: "a validator's matured rewards (balance + withdrawn) exceed what was ever credited to it (sum of its chunks), e.g. a chunk matured twice across an export/import",
         34: "all matured rewards together exceed the total distributed",
+        35: "a block reported less to ConsumeRewards (TotalDistributed / year Distributed) than it really credited to validators and delegators: the year books under-count the payments",
+        36: "what was really credited during a reward year exceeds the year's supply",
         32: "a WITHDRAW_REWARD amount that is negative or outside int64 was accepted (CheckTx or DeliverTx) or changed the cumulative records"}
 KNOWN = {}   # monitor code -> trigger id of a finding with status "known" (none at present: all three are fixed)
 
@@ -200,7 +202,7 @@ def run(ctx):
                 "network-delegation traffic (delegate 40-250000 OLT, undelegate 50-90% as the last delegation-store transaction of a block, undelegations "
                 "that are only CheckTx'ed), in a third of the chains an export/import relaunch (RewardMasterStore.DumpState on the running chain at a version "
                 "that is a multiple of the reward interval, one off, or arbitrary; JSON round trip; new app from a genesis holding the dump; one validator stops "
-                "signing after the import), three directed witnesses (delegate 1000 / undelegate 900 delivered or only checked; export at a maturity block), restarts, 5 block-time "
+                "signing after the import), four directed witnesses (delegate 1000 / undelegate 900 delivered or only checked; export at a maturity block; a whole 365-block reward year with a pool as large as the validators' power), restarts, 5 block-time "
                 "patterns incl. month jumps and sub-second blocks, 1-3 reward years, cycle 1-10, interval 1-5); calculator runs over a real block "
                 "store (cycle up to 25, warm and cold twin stores, restarts); cumulative store operation sequences; distinct = distinct recorded "
                 "block records + calculator steps + store operations",
@@ -215,7 +217,8 @@ def run(ctx):
         "explanation": "theorems of props/C13.v re-checked; Rewards.v (split, calculator, cumulative records) evaluated by vm_compute on every "
                        "recorded block of real app.App runs and on every step of package-level runs of rewards.RewardCumulativeStore "
                        "(model_mismatches must be 0); monitors evaluated on the implementation's observations only: credits (every vote's chunk delta + the deltas of "
-                       "ALL delegator reward balances, not only of the active table) <= pulled, no negative "
+                       "ALL delegator reward balances, not only of the active table) <= what the block reported to ConsumeRewards <= pulled, a reward year's real credits <= its supply "
+                       "(while no forecast was shorter than its cycle), no negative "
                        "credit/pull, warm pull = cold pull (two real stores), pull within remaining supply / pool-capped burnout, "
                        "balance >= 0 and balance + withdrawn = matured",
     })
